@@ -53,9 +53,9 @@ P["C08"] = dict(level="exploration", design="DESIGN.md 7.6", assumptions=["dupli
 P["C12"] = dict(level="fault_enumeration", design="DESIGN.md 7.8", assumptions=["scope: every receiving side reachable in the simulations (verifiers of all proof kinds, channel receivers, broadcast, OT, coin flip) and the importers / stream constructors fed with simulation-produced artefacts under truncation at every offset and single-byte corruption; arbitrary byte strings unrelated to a valid artefact are outside what this family generates",
    "a crash, sanitizer report, abort, uncaught non-standard exception or hang on a receiving side is a violation; a negative result or a std::exception is a clean refusal",
    "sanitizer build uses -DTMCG_MAX_STACK_CHARS=4194304 (the macro is #ifndef-guarded) to keep the 671 MB line buffer from dominating the run time"],
- quick=[leg("cards","asan",900,10,8,240), leg("torn","asan",0,10,0,240), leg("aio","asan",500,10,8,120), leg("rbc","asan",800,10,8,60), leg("ot","asan",600,10,8,60), leg("flip2","asan",600,10,8,60)],
- thorough=[leg("cards","asan",40000,10,32,240,900), leg("torn","asan",0,10,0,240,None,["--deep","1"]), leg("aio","asan",8000,10,16,120,300), leg("rbc","asan",20000,10,16,60,300), leg("ot","asan",10000,10,16,60,120), leg("flip2","asan",10000,10,16,60,120)],
- text="All scenarios are run in the ASan+UBSan build (library built without NDEBUG, as shipped, so a reachable assert is a kill); the cards scenario adds truncation of the transcript inside any prover line, well-formed stack secrets of another size, line swaps and mutations; the torn scenario re-imports every artefact kind (cards, secrets, stacks, stack secrets, keys, groups, commitment parameters, persisted protocol states, non-interactive proofs) cut at every byte offset and with single bytes flipped. Any crash, sanitizer report, abort or hang attributed to a seed is a violation.",
+ quick=[leg("cards","asan",900,10,8,240), leg("torn","asan",0,10,0,240), leg("aio","asan",500,10,8,120), leg("rbc","asan",800,10,8,60), leg("ot","asan",600,10,8,60), leg("flip2","asan",600,10,8,60), leg("pgp","asan",12000,10,32,120), leg("keygen","asan",800,10,8,60)],
+ thorough=[leg("cards","asan",40000,10,32,240,900), leg("torn","asan",0,10,0,240,None,["--deep","1"]), leg("aio","asan",8000,10,16,120,300), leg("rbc","asan",20000,10,16,60,300), leg("ot","asan",10000,10,16,60,120), leg("flip2","asan",10000,10,16,60,120), leg("pgp","asan",600000,10,64,120,400), leg("keygen","asan",20000,10,16,60,120)],
+ text="All scenarios are run in the ASan+UBSan build (library built without NDEBUG, as shipped, so a reachable assert is a kill); the cards scenario adds truncation of the transcript inside any prover line, well-formed stack secrets of another size, line swaps and mutations; the pgp scenario feeds the OpenPGP parsers with emitted packets whose bodies are truncated at every offset with re-encoded lengths, bit-flipped and cut; the torn scenario re-imports every artefact kind (cards, secrets, stacks, stack secrets, keys, groups, commitment parameters, persisted protocol states, non-interactive proofs) cut at every byte offset and with single bytes flipped. Any crash, sanitizer report, abort or hang attributed to a seed is a violation.",
  note="trusted: sanitizers; not a general fuzzer")
 P["C13"] = dict(level="exploration", design="DESIGN.md 7.1", assumptions=[
   "receive shapes follow send shapes per link (single integers or arrays of one length), as every in-tree user does",
@@ -106,6 +106,15 @@ P["C18"] = dict(level="exploration", design="DESIGN.md 7.5", assumptions=["messa
  thorough=[leg("ot","plain",600000,16,256,60,600), leg("ot","asan",40000,10,64,60,300)],
  text="All three sender/chooser pairs between two tasks, N=2..64, every index reachable by the seed, message vectors incl. the identity and repeated messages: the chooser's output must equal M[sigma]; the chooser's secrets are recomputed from a copy of its coin stream (verified against x=g^a, y=g^b on the wire) and must not open any other ciphertext; blinding values must be fresh per message; a scripted first move with coinciding, non-member, 0, p or >=p elements and a relay replacing a first-move line must make the sender refuse without emitting ciphertexts.",
  note="trusted: harness recomputation of the chooser's view")
+
+P["C20"] = dict(level="fault_enumeration", design="DESIGN.md 7.9", assumptions=["scope: clock-dependent validity of detached binary document signatures under skew and jumps of the verifier's clock, and tamper / truncate / re-order / drop faults on artefacts between a signer-encryptor node and a verifier-decryptor node; no GnuPG cross-check, no key or user-ID certifications, RSA-2048 / DSA-2048 / ECDSA P-256 test keys, CFB+MDC and AEAD (OCB, EAX) with AES-256",
+   "'the signature value' means the left-16 octets and the MPI payloads; a flipped bit in an MPI bit count or in the unhashed sub-packet area is recorded, not asserted",
+   "a literal data packet without data is refused by the library's decoder by design (observation O3): message plaintexts have at least one octet",
+   "DSA/ECDSA nonces come from inside libgcrypt (no seam): only outcomes enter the fingerprint, position-dependent record-only faults are used with RSA signatures only"],
+ quick=[leg("pgp","plain",40000,16,64,60), leg("pgp","asan",20000,10,64,120)],
+ thorough=[leg("pgp","plain",3000000,16,512,60,600), leg("pgp","asan",600000,10,256,120,600)],
+ text="Two nodes with their own simulated clocks: the signer/encryptor emits artefacts with the library's encoders, the artefact channel applies at most one fault, the verifier/decryptor parses and checks. Signatures: the verifier's clock is placed on every boundary of the validity rules (expiry-1/expiry/expiry+1, 25 h +-1 s in the future, signature older than its key, clock jump between validity and integrity check) and CheckValidity is compared with a reference model of the rules; a bit flipped in any hashed field, in the signature value, in the document, or a check against another key must not verify; the signature-packet body is truncated at every offset with the length re-encoded. Messages: SEIPD+MDC and AEAD (two modes, three chunk sizes, lengths around chunk boundaries) must decrypt to the plaintext, and a flipped ciphertext or tag bit, truncation, dropped tag, exchanged or removed chunks, altered associated data or nonce, a wrong session key and an unprotected (SED) packet must make decryption fail.",
+ note="trusted: reference model of the validity rules; libgcrypt")
 
 def main():
     checks = {}
